@@ -864,6 +864,10 @@ fn adapter_fact_checks(l: &[char]) -> Vec<(&'static str, bool)> {
     // NvNoTrunc: normalize_validate(l) is never a proper prefix of l
     let n = nv(l);
     out.push(("nvnotrunc", !(n.len() < l.len() && l[..n.len()] == n[..])));
+    // NvNoGrow (Proofs/Idna_C12d_Round.v): l is never a proper prefix of normalize_validate(l).  after_punycode_decode
+    // compares the normalised text with the decoded one by a zip that stops at the shorter: NvNoTrunc and NvNoGrow
+    // together make an accepted decoded label equal to the text that is displayed and re-encoded.
+    out.push(("nvnogrow", !(n.len() > l.len() && n[..l.len()] == l[..])));
     // AdapterNP (Proofs/C04_Uts46_Inner.v): neither normalizer ever returns U+200F (chars are below 2^32 by type)
     {
         let m0 = mn(l);
@@ -1007,7 +1011,7 @@ fn adapter_facts(rep: &mut Report, rng: &mut Rng, thorough: bool, sources: &[Str
         }
     }
     rep.notes.push(format!(
-        "adapter premises sampled on the real idna_adapter: {} texts, {} fact instances (nvnotrunc, adapternp, adapterusv, ok_ascii, ok_case, ok_stable, ok_mn_idem, ok_fffd, ok_nv_idem, ok_nv_mapfix, ok_map_prefix, and on the 128 ASCII characters ok_ascii_nomark, ok_pass_bidi; H0 = the empty text is among them)",
+        "adapter premises sampled on the real idna_adapter: {} texts, {} fact instances (nvnotrunc, nvnogrow, adapternp, adapterusv, ok_ascii, ok_case, ok_stable, ok_mn_idem, ok_fffd, ok_nv_idem, ok_nv_mapfix, ok_map_prefix, and on the 128 ASCII characters ok_ascii_nomark, ok_pass_bidi; H0 = the empty text is among them)",
         texts.len(),
         n
     ));
